@@ -138,7 +138,11 @@ static Universe make_universe(const Txid& setup_txid, int profile, CAmount fille
     const CAmount in_ch = half + (COIN_VALUE - fee) + (COIN_VALUE + (COIN_VALUE - p1fee - half) - fee);
     U.tx[CH] = SpendTx({COutPoint(p1, 0), COutPoint(U.tx[P2]->GetHash(), 0), COutPoint(U.tx[P3]->GetHash(), 0)}, {in_ch - 100000});
     { CMutableTransaction z; z.version = 2; z.vout.emplace_back(1000, OpTrueSpk()); U.tx[Z] = MakeTransactionRef(z); }
-    for (int i = 0; i < 8; i++) U.fillers.push_back(SpendTx({c(3 + i)}, {COIN_VALUE - filler_fee - i}));
+    // fillers: 30 independent ~900 vB transactions (the pool limit must be >= 40 x the cluster size limit, see Flatten())
+    for (int i = 0; i < 30; i++) {
+        CMutableTransaction m = MakeTx({{c(3 + i)}}, {{COIN_VALUE - filler_fee * 8 - i, OpTrueSpk()}, {0, CScript() << OP_RETURN << std::vector<unsigned char>(780, (unsigned char)i)}});
+        U.fillers.push_back(MakeTransactionRef(m));
+    }
     return U;
 }
 
@@ -232,7 +236,7 @@ struct World {
     std::string Setup(const Group& g, int64_t max_pool_bytes)
     {
         NodeOpts o;
-        if (max_pool_bytes > 0) o.mempool_tweak = [max_pool_bytes](CTxMemPool::Options& mo) { mo.max_size_bytes = max_pool_bytes; };
+        if (max_pool_bytes > 0) o.mempool_tweak = [max_pool_bytes](CTxMemPool::Options& mo) { mo.max_size_bytes = max_pool_bytes; mo.limits.cluster_size_vbytes = 1000; };
         n = std::make_unique<Node>(o);
         L.AddGenesis(Params().GenesisBlock());
         SetMockTime(Params().GenesisBlock().nTime + 600 * 1000);
@@ -422,7 +426,7 @@ static void group_main(const Group& g, int64_t max_pool_bytes, int maxlen, int o
     _exit(0);
 }
 
-// calibration: DynamicMemoryUsage of the pool holding the 8 fillers (+1 more tx)
+// calibration: DynamicMemoryUsage of the pool holding the fillers (+1 more tx)
 static void calibrate_main(int out)
 {
     World w;
@@ -471,13 +475,8 @@ int main(int argc, char** argv)
         size_t u0 = 0, u1 = 0;
         if (sscanf(s.c_str(), "C\t%zu\t%zu", &u0, &u1) != 2 || u1 <= u0) { printf("HARNESS-ERROR property=C29 calibration failed: %s\n", s.c_str()); return 2; }
         max_pool = (int64_t)u1 + (int64_t)(u1 - u0) / 2; // room for the fillers plus about one and a half transactions
+        if (max_pool < 40 * 1000) { printf("HARNESS-ERROR property=C29 fillers too small for the minimum pool limit (%ld)\n", (long)max_pool); return 2; }
         E.set("full_pool_limit_bytes", (uint64_t)max_pool);
-    }
-    // ---- (a) in a child too (keeps the root free of global node state); results through the normal evidence path need
-    // the root, so run it here: it only needs transactions, not a node.
-    {
-        Universe U = make_universe(Txid::FromUint256(uint256{9}), 0, 600);
-        layer_a(U, big);
     }
     // ---- (b) groups
     std::vector<Group> groups;
@@ -556,6 +555,12 @@ int main(int argc, char** argv)
         Running r = running.front();
         running.erase(running.begin());
         reap(r);
+    }
+    // ---- (a) predicates. Done after all node processes were forked: the root must not touch the global RNG before
+    // (children would inherit its state and pick identical temporary datadir names).
+    {
+        Universe U = make_universe(Txid::FromUint256(uint256{9}), 0, 600);
+        layer_a(U, big);
     }
     E.evaluations += total_cases;
     E.distinct_nontrivial += sigs.size();
